@@ -671,3 +671,163 @@ def scenarios_c03(tier, seed):
                 keep.append(sc)
         out = keep
     return out
+
+
+# ------------------------------------------------------------------------------------------------------
+# validation against Trace_TagVendor, canonical keys, self-test
+
+CLSNAME = {"ulc": "MifareUltralightC", "ntag": "NTAG21x", "ev1": "MifareUltralightEV1", "n203": "NTAG203"}
+OPN = {"auth": "authenticate", "protect": "protect(password)", "lock": "protect(lockbits)", "format": "format", "ndef": "ndef"}
+
+
+def op_at(tr, line):
+    for e in tr["ev"][:line][::-1]:
+        if e["a"] == "Start":
+            return e["op"]
+        if e["a"] == "Ndef":
+            return "ndef"
+    return "?"
+
+
+def classify(tr, line, act, why):
+    """canonical key: class : operation : what (never a seed, an id or a page number of one product)"""
+    ev = tr["ev"][line - 1]
+    cls = CLSNAME[tr["init"]["prod"]]
+    opn = OPN.get(op_at(tr, line), "?")
+    if why and why[0] == "inv":
+        out = ev.get("out") if act == "Check" else None
+        if out in (None, "-"):
+            for e in tr["ev"][line - 1:]:
+                if e["a"] == "Return":
+                    out = e["res"]
+                    break
+        return "%s:%s:%s:%s" % (cls, opn, "+".join(why[1]), out)
+    what = act + ("-" + ev["c"] if act in ("Write", "Read") else "")
+    return "%s:%s:conformance:%s-not-as-specified@%s" % (cls, opn, what, why[1] if len(why) > 1 else "?")
+
+
+def sig_of(tr, line, act, why):
+    """the (invariant, operation, outcome) signatures to step over on the next pass"""
+    op = op_at(tr, line)
+    out = None
+    for e in tr["ev"][line - 1:]:
+        if e["a"] == "Check" and e is tr["ev"][line - 1] and e["out"] != "cont":
+            out = e["out"]
+            break
+        if e["a"] == "Return":
+            out = e["res"]
+            break
+    return [[n, op, out] for n in why[1]]
+
+
+def validate(ck, module_tag, traces, by_id, self_t, timeout=900, shards=6):
+    """-> (#conforming traces, TLC stats, {id: [keys]}).  A trace rejected by an invariant is reported under its
+    canonical key and validated again with that (invariant, operation, outcome) stepped over, so that the rest of the
+    execution is still checked; anything else (a command, value or state the model does not have) ends the trace."""
+    from vlib import tlc
+    total = dict(states=0, transitions=0)
+    found, bad = {}, set()
+    pending, extra = list(traces), list(self_t)
+    for pass_no in range(6):
+        if not pending:
+            break
+        verdicts, st = tlc.validate_traces("Trace_TagVendor.tla", "Trace_TagVendor.cfg", module_tag, pending + extra,
+                                           shards=shards if pass_no == 0 else 3, timeout=timeout)
+        total["states"] += st["states"]
+        total["transitions"] += st["transitions"]
+        for t in extra:
+            if verdicts[t["id"]][0] == "ACCEPT":
+                raise tlc.TLCError("binding vacuous: corrupted trace %s accepted" % t["id"])
+        extra, nxt = [], []
+        for tr in pending:
+            v = verdicts[tr["id"]]
+            if v[0] == "ACCEPT":
+                continue
+            line, act, why = v[1], v[2], v[3]
+            key = classify(tr, line, act, why)
+            found.setdefault(tr["id"], []).append(key)
+            ck.violation(key, "trace %s rejected at event %d (%s): %s ; event=%s" % (
+                tr["id"], line, act, json.dumps(why)[:400],
+                json.dumps({k: x for k, x in tr["ev"][line - 1].items() if k in ("a", "op", "c", "v", "ok", "out", "res", "view")})),
+                replay=dict(kind="vendor-nxp", scenario=by_id[tr["id"]]))
+            if not (why and why[0] == "inv"):
+                bad.add(tr["id"])
+                continue
+            sigs = sig_of(tr, line, act, why)
+            if all(sg in tr["tol"] for sg in sigs):
+                bad.add(tr["id"])
+                continue
+            nxt.append(dict(tr, tol=tr["tol"] + [sg for sg in sigs if sg not in tr["tol"]]))
+        pending = nxt
+    return len(traces) - len(bad), total, found
+
+
+def selftest_traces(traces):
+    """one recorded trace with a corrupted field, one with a dropped event, one with a hidden modification"""
+    out = []
+    base = next(t for t in traces if "-protect-pf" in t["id"] and t["init"]["prod"] in ("ntag", "ulc")
+                and any(e["a"] == "Return" and e["res"] == "True" for e in t["ev"][:40]))
+    t1 = json.loads(json.dumps(base))
+    for e in t1["ev"]:
+        if e["a"] == "Write" and "auth0" in e["v"]:
+            e["v"]["auth0"] += 1                      # another AUTH0 than the one protect_from asks for
+            break
+    t1["id"] = base["id"] + "#corrupt"
+    out.append(t1)
+    t2 = json.loads(json.dumps(base))
+    for i, e in enumerate(t2["ev"]):
+        if e["a"] == "Write":
+            del t2["ev"][i]                           # a WRITE the trace does not show
+            break
+    t2["id"] = base["id"] + "#dropped"
+    out.append(t2)
+    t3 = json.loads(json.dumps(base))
+    for e in t3["ev"]:
+        if e["a"] == "Return" and e["res"] == "True":
+            e["eprot"] = not e["eprot"]               # the tag's effective PROT differs from what was asked for
+            break
+    t3["id"] = base["id"] + "#state"
+    out.append(t3)
+    tam = next((t for t in traces if t["id"].endswith("-tamper") and any(e["a"] == "AdvFlip" for e in t["ev"])), None)
+    if tam is not None:
+        t4 = json.loads(json.dumps(tam))
+        for i, e in enumerate(t4["ev"]):
+            if e["a"] == "AdvFlip":
+                del t4["ev"][i]                       # a modification the trace hides: the False result is unexplained
+                break
+        t4["id"] = tam["id"] + "#hidden-tamper"
+        out.append(t4)
+    return out
+
+
+def execute(scs, seed):
+    traces, by_id, results, harness = [], {}, {}, []
+    for sc in scs:
+        tr, res, w = run_scenario(sc, seed)
+        traces.append(tr)
+        by_id[sc["id"]] = sc
+        results[sc["id"]] = res
+        for key, what in w.findings:
+            harness.append((key, "%s: %s" % (sc["id"], what), sc))
+        if getattr(w, "unapplied", 0):
+            raise HarnessError("adversary script without effect in %s" % sc["id"])
+    return traces, by_id, results, harness
+
+
+def replay(rep, args, pid):
+    from vlib import tlc
+    sc = rep["replay"]["scenario"]
+    for o in sc["ops"]:
+        if "script" in o:
+            o["script"] = [tuple(x) for x in o["script"]]
+    tr, res, w = run_scenario(sc, rep.get("seed", 1))
+    verdicts, st = tlc.validate_traces("Trace_TagVendor.tla", "Trace_TagVendor.cfg", pid + "_replay", [tr], shards=1)
+    v = verdicts[tr["id"]]
+    print("results:", list(zip([o["name"] for o in sc["ops"]], res)))
+    print("replay verdict:", v)
+    if v[0] != "ACCEPT":
+        print("event:", json.dumps({k: x for k, x in tr["ev"][v[1] - 1].items() if x not in ("-", 0, [], {})}))
+        print("key:", classify(tr, v[1], v[2], v[3]))
+        print("VIOLATION property=%s replay=%s" % (pid, args.replay))
+        return 1
+    return 0
